@@ -31,5 +31,4 @@ def run(c):
     c.run_m('h_c14_child', expect_checks=(1450, 1451, 1452, 1453, 1454), expect_cover=(1450,), bounds={'passed values': 'any i64 x any i64', 'order of the pairs': 2}, env=ins, step_budget=800_000, diff_samples=4)
     if c.tier == 'thorough':
         c.run_m('h_c14_life_s2', expect_checks=ALL, expect_cover=(1401,), bounds=dict(B, shape='2: depth 3'), env=ins, step_budget=800_000, diff_samples=4)
-        c.run_m('h_c14_life_s3', expect_checks=ALL, expect_cover=(1401,), bounds=dict(B, shape='3: parallel with two compound regions'), env=ins, step_budget=800_000, diff_samples=4)
-        c.run_m('h_c14_life_s7', expect_checks=ALL, expect_cover=(1401,), bounds=dict(B, shape='7: parallel whose regions have finals'), env=ins, step_budget=800_000, diff_samples=4)
+        # (h_c14_life_s3 / _s7, parallel shapes with 7 invoking states, exist as harnesses but are not part of a tier: > 30 min each)
